@@ -78,7 +78,7 @@ fn enc_value(v: &Value, out: &mut Vec<u8>) -> Result<()> {
             out.push(if *b { 0xf5 } else { 0xf4 });
         }
         Value::Null => out.push(0xf6),
-        Value::Integer(n) => enc_int(i128::from(*n), out),
+        Value::Integer(n) => enc_int(i128::from(*n), out)?,
         Value::Float(f) => enc_float(*f, out),
         Value::Text(s) => enc_text(s, out)?,
         Value::Bytes(b) => enc_bytes(b, out)?,
@@ -117,16 +117,26 @@ fn enc_value(v: &Value, out: &mut Vec<u8>) -> Result<()> {
 }
 
 fn enc_len(major: u8, len: u64, out: &mut Vec<u8>) {
-    write_major(major, u128::from(len), out);
+    write_major(major, len, out);
 }
 
-fn enc_int(n: i128, out: &mut Vec<u8>) {
+/// Splits an integer into its CBOR major type and 64-bit argument.
+///
+/// CBOR integers cover `[-2^64, 2^64)`: major 0 carries `n`, major 1 carries
+/// `-1 - n`. Values outside that range have no integer encoding.
+fn cbor_int_parts(n: i128) -> Option<(u8, u64)> {
     if n >= 0 {
-        write_major(0, n as u128, out);
+        u64::try_from(n).ok().map(|m| (0, m))
     } else {
-        let m = (-1 - n) as u128;
-        write_major(1, m, out);
+        u64::try_from(-1 - n).ok().map(|m| (1, m))
     }
+}
+
+fn enc_int(n: i128, out: &mut Vec<u8>) -> Result<()> {
+    let (major, m) =
+        cbor_int_parts(n).ok_or_else(|| CanonError::Decode("integer out of range".into()))?;
+    write_major(major, m, out);
+    Ok(())
 }
 
 fn enc_float(f: f64, out: &mut Vec<u8>) {
@@ -152,8 +162,11 @@ fn enc_float(f: f64, out: &mut Vec<u8>) {
         if (I128_MIN_F..=I128_MAX_F).contains(&f) {
             let i = f as i128;
             if i as f64 == f {
-                enc_int(i, out);
-                return;
+                // Integral floats beyond the CBOR integer range stay floats.
+                if let Some((major, m)) = cbor_int_parts(i) {
+                    write_major(major, m, out);
+                    return;
+                }
             }
         }
     }
@@ -197,7 +210,7 @@ fn enc_text(s: &str, out: &mut Vec<u8>) -> Result<()> {
     Ok(())
 }
 
-fn write_major(major: u8, n: u128, out: &mut Vec<u8>) {
+fn write_major(major: u8, n: u64, out: &mut Vec<u8>) {
     debug_assert!(major <= 7);
     match n {
         0..=23 => out.push((major << 5) | n as u8),
@@ -215,7 +228,7 @@ fn write_major(major: u8, n: u128, out: &mut Vec<u8>) {
         }
         _ => {
             out.push((major << 5) | 27);
-            out.extend_from_slice(&(n as u64).to_be_bytes());
+            out.extend_from_slice(&n.to_be_bytes());
         }
     }
 }
@@ -374,6 +387,10 @@ fn dec_value(bytes: &[u8], idx: &mut usize, depth: usize) -> Result<Value> {
                 if is_exact_int(f) {
                     return Err(CanonError::FloatShouldBeInt);
                 }
+                // NaN has exactly one spelling: the quiet half-width NaN the encoder emits.
+                if f.is_nan() && bytes[*idx - 2..*idx] != f16::NAN.to_bits().to_be_bytes() {
+                    return Err(CanonError::NonCanonicalFloat);
+                }
                 Ok(Value::Float(f))
             }
             26 => {
@@ -415,7 +432,7 @@ fn is_exact_int(f: f64) -> bool {
         return false;
     }
     let i = f as i128;
-    i as f64 == f
+    i as f64 == f && cbor_int_parts(i).is_some()
 }
 
 fn can_fit_f16(f: f64) -> bool {
